@@ -457,6 +457,48 @@ func (h *Hist) randomEvent() string {
 	hard := int64(o.HardDeleteGracePeriodDuration() / time.Second)
 	cool := o.ScaleUpCoolDownPeriodDuration()
 	ev := r.intn(22)
+	if h.big && r.chance(30) {
+		// a large group is marked for removal wholesale: most of its nodes tainted long ago and empty, a few recent or busy
+		gi, o = 0, h.cfgs[0]
+		nodes = h.cfgIndexNodes(0)
+		soft, hard = int64(o.SoftDeleteGracePeriodDuration()/time.Second), int64(o.HardDeleteGracePeriodDuration()/time.Second)
+		frac := r.pickI(30, 60, 90, 97)
+		marked := map[string]bool{}
+		for _, n := range nodes {
+			if !r.chance(frac) || n.hasTaint(escKey) || n.hasTaint(forceKey) {
+				continue
+			}
+			switch r.intn(10) {
+			case 0:
+				n.Taints = append(n.Taints, WTaint{Key: escKey, Effect: "NoSchedule", Rel: true, Ago: r.pickI64(0, 1, soft-1)})
+			case 1:
+				n.Taints = append(n.Taints, WTaint{Key: escKey, Effect: "NoSchedule", Raw: r.pick("abc", "", "12x")})
+			case 2:
+				n.Taints = append(n.Taints, WTaint{Key: forceKey, Effect: forceEffect(r), Raw: "x"})
+				marked[n.Name] = true
+			default:
+				n.Taints = append(n.Taints, WTaint{Key: escKey, Effect: "NoSchedule", Rel: true, Ago: r.pickI64(soft+1, hard+1, 2*hard, soft+30)})
+				marked[n.Name] = !r.chance(3)
+			}
+		}
+		var keep []*WPod
+		for _, p := range h.pods {
+			if !marked[p.NodeName] {
+				keep = append(keep, p)
+			}
+		}
+		h.pods = keep
+		return "mass-mark"
+	}
+	if h.big && r.chance(12) {
+		// … and an operator cordons what is still marked
+		for _, n := range h.cfgIndexNodes(0) {
+			if (n.hasTaint(escKey) || n.hasTaint(forceKey)) && r.chance(50) {
+				n.Unschedulable = true
+			}
+		}
+		return "cordon-marked"
+	}
 	if focus == "up" && slowOK && r.chance(45) {
 		// straight past the cool-down: the next scan may ask the cloud again, on whatever description of the group it holds
 		h.shift(cool + time.Second)
@@ -731,8 +773,13 @@ func (h *Hist) randomEvent() string {
 			h.addNode(gi, cpu, mem, int64(r.pickI(0, 50)), false)
 			return "foreign-node"
 		case 1: // odd provider ids
-			n := h.addNode(gi, cpu, mem, 0, false)
-			n.ProviderID = r.pick("", "aws:///az-a", "garbage", "a/b/c/d", "aws:///az-a/i-x/extra", "aws:////i-0abc", "aws:///az-a/", "aws:////", "////", "aws:///i-0abc")
+			n := h.addNode(gi, cpu, mem, int64(r.pickI(0, 0, 100, 5000, 90000)), false)
+			n.ProviderID = r.pick("", "", "aws:///az-a", "garbage", "a/b/c/d", "aws:///az-a/i-x/extra", "aws:////i-0abc", "aws:///az-a/", "aws:////", "////", "aws:///i-0abc")
+			if r.chance(35) {
+				// … and a second one with the very same id (two kubelets without a cloud identity look alike)
+				m := h.addNode(gi, cpu, mem, int64(r.pickI(0, 200, 7000, 100000)), false)
+				m.ProviderID = n.ProviderID
+			}
 			return "odd-provider-id"
 		case 2:
 			n := h.addNode(gi, cpu, mem, 0, true)
@@ -905,6 +952,11 @@ func (h *Hist) runHistory(scans int) (bool, string) {
 			return false, err.Error()
 		}
 		h.stats["outcome:"+outcome]++
+		if !h.scripted && outcome == "ok" && h.r.chance(30) {
+			// time moves on between scans (the events above move it too, but rarely by little)
+			h.shift([]time.Duration{time.Second, 2 * time.Second, 10 * time.Second, time.Minute, 5 * time.Minute}[h.r.intn(5)])
+			h.stats["ev:tick"]++
+		}
 		if outcome != "ok" {
 			// the process would have exited: what follows is a new lifetime
 			if !h.initController() {
